@@ -473,7 +473,12 @@ func (s *Seq) compareSnaps(bt []Rq, a, b *Snap, kind, what string, nontrivial bo
 			continue // only defined for the in-memory head
 		}
 		aa, bb := a.Ans[i], b.Ans[i]
-		s.C.Case(kind+"|"+q.String()+"|"+drv.Hash(stampRE.ReplaceAllString(strings.Join(aa.Items, "\x00"), "<t>"), fmt.Sprint(aa.Status)), nontrivial)
+		hi := aa.Items
+		if !ordered(q.Norm) { // unordered answers: the case key must not depend on map iteration order
+			hi = append([]string{}, aa.Items...)
+			sort.Strings(hi)
+		}
+		s.C.Case(kind+"|"+q.String()+"|"+drv.Hash(stampRE.ReplaceAllString(strings.Join(hi, "\x00"), "<t>"), fmt.Sprint(aa.Status)), nontrivial)
 		s.C.Seen("endpoint_forms", q.Class+"/"+q.Norm+"/"+q.QClass)
 		s.C.Count("comparisons_"+kind, 1)
 		if aa.Nullish != bb.Nullish {
